@@ -165,6 +165,12 @@ func (l *Link) Read(p []byte) (int, error) {
 	copy(p, l.Data[l.Pos:l.Pos+n])
 	l.Pos += n
 	atFault := l.Fault != nil && !l.faultDone && l.Pos >= l.Fault.At && l.Fault.At <= len(l.Data)
+	if atFault && l.Fault.Transient && l.Fault.Partial && n == len(p) && n > 0 {
+		// a failure that goes away again must not arrive together with the LAST byte a request
+		// asked for (io.ReadFull rightly drops such an error and nobody would ever see it):
+		// it is delivered with strictly fewer bytes than asked, or bare on the next call
+		return n, nil
+	}
 	if atFault && (n == 0 || l.Fault.Partial) {
 		// deliver the failure now
 		err := ErrorByName(l.Fault.Err)
